@@ -128,6 +128,9 @@ def name_pool(tier):
     return out
 
 
+MALFORMED = ['q9 = y(k-1) + 2', 'q8 = 2*y(k-1)', '= 77.', 'q7 = w(t-1) - y']
+
+
 def make_block(rnd, rhs, sp, lf, with_t, marker, xn='x', ln='L'):
     endo = [(xn, rhs), ('y', '2.0'), ('w', xn + ' / 3')]
     lag = [(ln, xn)]
@@ -141,9 +144,11 @@ def make_block(rnd, rhs, sp, lf, with_t, marker, xn='x', ln='L'):
     exo = [('g', '[1., 2., 3.]')]
     lines = [('endo', sp % (v, e)) for v, e in endo]
     lines += [('lag', sp % (v, lf % src)) for v, src in lag]
-    lines += [('ic', sp % (v + '(0)', e)) for v, e in ic.items()]
+    lines += [('ic', sp % (v + ('(0)' if i % 2 == 0 else ' (0)'), e)) for i, (v, e) in enumerate(ic.items())]
     lines += [('param', sp % ('MaxTime', '7')), ('param', sp % ('Err_Tolerance', '1e-4'))]
     lines += [('bad', 'oops no equals'), ('bad', 'a = b = c'), ('blank', ''), ('blank', '   ')]
+    # malformed: a lag inside a larger expression, no variable name
+    lines += [('bad', MALFORMED[j]) for j in range(len(MALFORMED)) if (len(rhs) + j) % 2 == 0 or xn != 'x']
     rnd.shuffle(lines)
     text = '\n'.join(l for _, l in lines) + '\n' + marker + '\n' + '\n'.join(sp % (v, e) for v, e in exo)
     return (text, dict(endo=endo, lag=lag, ic=ic, exo=exo, with_t=with_t))
@@ -213,6 +218,12 @@ def lines_chunk(items):
             problems.append('run parameters MaxTime=%r Err_Tolerance=%r' % (p.MaxTime, p.Err_Tolerance))
         if 'oops no equals' not in msg or 'a = b = c' not in msg:
             problems.append('malformed lines are not reported in the returned message %r' % (msg,))
+        for mal in MALFORMED:
+            if mal in text and mal not in msg:
+                problems.append('malformed line %r is not reported in the returned message' % (mal,))
+        stray = [v for v in [x for x, _ in p.Endogenous] + [x for x, _ in p.Lagged] + [x for x, _ in p.Exogenous] + list(p.InitialConditions) if v in ('q9', 'q8', 'q7', '')]
+        if stray:
+            problems.append('malformed lines were read as definitions of %r' % (stray,))
         if p.Decoration:
             problems.append('decoration list not empty after ParseString')
         if problems:
